@@ -34,6 +34,16 @@ theorem frun_cons_some {σ : State → Label → Option State} {t : Topo} {S S' 
   | none => simp [hm] at h
   | some M => exact ⟨M, rfl, by simpa [hm] using h⟩
 
+theorem frun_append (σ : State → Label → Option State) (t : Topo) (S : FState) (a b : List FLabel) :
+    frun σ t S (a ++ b) = (frun σ t S a).bind fun M => frun σ t M b := by
+  induction a generalizing S with
+  | nil => simp [frun]
+  | cons l ls ih =>
+    simp only [List.cons_append, frun]
+    cases fstep σ t S l with
+    | none => simp
+    | some S1 => simp [ih]
+
 theorem frun_append_some {σ : State → Label → Option State} {t : Topo} {S S' : FState} {a b : List FLabel}
     (h : frun σ t S (a ++ b) = some S') : ∃ M, frun σ t S a = some M ∧ frun σ t M b = some S' := by
   induction a generalizing S with
@@ -863,6 +873,75 @@ theorem finvK_run {kind : Nat → Kind} {t : Topo} {S S' : FState} {ls : List FL
   | cons l ls ih =>
     obtain ⟨M, h1, h2⟩ := frun_cons_some hs
     exact ih (finv_step (pairOK_step kind) hf h1) (finvK_step hf h h1) h2
+
+theorem run_unsent_or_pred {kind : Nat → Kind} {s s' : State} {ls : List Label} (hinv : Inv kind s)
+    (h : run kind s ls = some s') {i j : Nat} (hu : s.phase j = .unsent) (hi : i ∈ s.returned) (hs : (kind i).sync = true) :
+    s'.phase j = .unsent ∨ (i, j) ∈ s'.pred := by
+  induction ls generalizing s with
+  | nil => simp [run] at h; subst h; left; exact hu
+  | cons l ls ih =>
+    obtain ⟨m, h1, h2⟩ := run_cons_some h
+    rcases step_unsent_or_pred hinv h1 hu hi hs with q | q
+    · exact ih (inv_step hinv h1) h2 q (step_returned_mono h1 hi)
+    · right; exact run_pred_mono h2 q
+
+/-- For ALL label lists, ALL addressings: the same across two fan-outs — if the notifying method `g` has
+returned and afterwards the notifying method `g'` begins (a second `AddRoots`, say), then for a peer that got
+the copy `c` of `g` without error the handler of `c` has finished when the handler of that peer's copy `c'`
+of `g'` starts. -/
+theorem fanout_end_before_later_fanout_start {kind : Nat → Kind} {t : Topo} {l₁ l₂ l₃ : List FLabel} {g g' c c' : Nat} {S : FState}
+    (h : frun (step kind) t finit (l₁ ++ .fret g :: (l₂ ++ .fcall g' :: (l₃ ++ [.msg (.start c')]))) = some S)
+    (hc : c ∈ t.copies g) (hg : t.grp c = some g) (hsync : (kind c).sync = true) (hp : t.pair c = t.pair c')
+    (hg' : t.grp c' = some g') (hf : FLabel.ferr c ∉ l₁) :
+    FLabel.msg (.fin c) ∈ l₁ ++ .fret g :: (l₂ ++ .fcall g' :: l₃) := by
+  have h' : frun (step kind) t finit ((l₁ ++ .fret g :: (l₂ ++ .fcall g' :: l₃)) ++ [.msg (.start c')]) = some S := by
+    simpa [List.append_assoc] using h
+  obtain ⟨M, hm, hlast⟩ := frun_append_some h'
+  obtain ⟨_, hstartF, _⟩ := frun_cons_some hlast
+  obtain ⟨s5, hstart⟩ := fstep_msg_pair hstartF
+  have hstart' : step kind (M.peers (t.pair c')) (.start c') = some s5 := hstart
+  obtain ⟨S1, hs1, hrest⟩ := frun_append_some hm
+  obtain ⟨S2, hfret, hrest⟩ := frun_cons_some hrest
+  obtain ⟨S3, hs3, hrest⟩ := frun_append_some hrest
+  obtain ⟨S4, hfcall, hs4⟩ := frun_cons_some hrest
+  have hF1 := finv_run (pairOK_step kind) (finv_init t) hs1
+  have hret1 : c ∈ (S1.peers (t.pair c')).returned := by
+    rcases finv_fret_copy hF1 hfret hc hg with q | q
+    · rw [hp] at q; exact q
+    · rcases frun_failed_has_ferr hs1 q with r | r
+      · simp [finit] at r
+      · exact absurd r hf
+  -- up to the begin of `g'`
+  have hrun3 : frun (step kind) t finit (l₁ ++ .fret g :: l₂) = some S3 := by
+    rw [frun_append, hs1]; simp [frun, hfret, hs3]
+  have hF3 := finv_run (pairOK_step kind) (finv_init t) hrun3
+  have hK3 := finvK_run (finv_init t) (finvK_init kind t) hrun3
+  have hn : g' ∉ S3.called := by
+    simp only [fstep] at hfcall
+    split at hfcall <;> simp at hfcall
+    assumption
+  have hu3 : (S3.peers (t.pair c')).phase c' = .unsent := hK3.unsent c' g' hg' hn
+  have hret3 : c ∈ (S3.peers (t.pair c')).returned := by
+    have h2 : frun (step kind) t S1 (.fret g :: l₂) = some S3 := by simp [frun, hfret, hs3]
+    have := frun_proj h2 (t.pair c')
+    rw [← run_eq_runG] at this
+    exact run_returned_mono this hret1
+  -- from there to the start of the handler
+  have h34 : frun (step kind) t S3 (.fcall g' :: l₃) = some M := by simp [frun, hfcall, hs4]
+  have hp34 := frun_proj h34 (t.pair c')
+  rw [← run_eq_runG] at hp34
+  have hpred : (c, c') ∈ (M.peers (t.pair c')).pred := by
+    rcases run_unsent_or_pred (hK3.pinv _) hp34 hu3 hret3 hsync with q | q
+    · simp only [step] at hstart'
+      split at hstart' <;> simp at hstart'
+      rename_i hcnd
+      rcases hcnd with ⟨e, _⟩ | e <;> rw [q] at e <;> cases e
+    · exact q
+  have hpP := frun_proj_run hm (t.pair c')
+  have hd := sync_finished_when_later_starts hpP hpred hstart'
+  rcases done_has_fin hpP hd with q | q
+  · simp [init] at q
+  · exact mem_of_mem_proj q
 
 /-! ### the property monitor accepts every run of the family -/
 
